@@ -84,7 +84,7 @@ pub fn property() -> Property {
                 .require(m_linear::REQUIRED),
             prop_sub("clustering", 5000, 60000, |t: Tier| case_strategy(m_clustering::NKINDS, t.pick(12, 30), 3), m_clustering::check)
                 .require(m_clustering::REQUIRED),
-            prop_sub("transforms", 6000, 80000, |t: Tier| case_strategy(m_transform::NKINDS, t.pick(12, 30), 4), m_transform::check)
+            prop_sub("transforms", 6000, 80000, |t: Tier| case_strategy(m_transform::NKINDS, t.pick(12, 30), 5), m_transform::check)
                 .require(m_transform::REQUIRED),
             enum_sub("small_types", |t: Tier| m_small::cases(t), m_small::check),
         ],
